@@ -214,12 +214,13 @@ def build(ctx):
     def visc_replay(w):
         import numpy as np
         f = real(GAS + "viscosity_Sutton")
-        for T_ in (100.0, 250.0, 400.0):
-            ps = np.linspace(50, 14000, 60)
-            mu = np.array([f(T_, x, -72.0, 650.0, 0.7) for x in ps])
+        for T_, g_ in ((100.0, 0.7), (250.0, 0.7), (400.0, 0.7), (100.0, 0.56), (400.0, 1.0), (200.0, 0.85)):
+          # the whole table range, the dilute end resolved (10 .. 200 psia in 5-psi steps) as well as the dense end
+          for ps in (np.linspace(50, 14000, 60), np.arange(10.0, 205.0, 5.0), np.linspace(9000, 14000, 26)):
+            mu = np.array([f(T_, x, -72.0, 650.0, g_) for x in ps])
             if not (np.all(mu > 0) and np.all(np.diff(mu) > 0)):
                 k = int(np.argmax(~(np.diff(mu) > 0))) if np.all(mu > 0) else int(np.argmax(~(mu > 0)))
-                return {"reproduced": True, "input": {"T": T_, "p": [float(ps[k]), float(ps[k + 1 if k + 1 < len(ps) else k])], "Tpc": -72.0, "Ppc": 650.0, "g": 0.7}, "observed": [float(mu[k]), float(mu[min(k + 1, len(mu) - 1)])], "required": "positive and increasing in p"}
+                return {"reproduced": True, "input": {"T": T_, "p": [float(ps[k]), float(ps[k + 1 if k + 1 < len(ps) else k])], "Tpc": -72.0, "Ppc": 650.0, "g": g_}, "observed": [float(mu[k]), float(mu[min(k + 1, len(mu) - 1)])], "required": "positive and increasing in p"}
         return {"reproduced": False}
 
     obs.append(Obligation("gas.viscosity_pos", "viscosity_Sutton > 0 on the box (T_r in [1.05, 3]); it depends on p and Z only through p/Z", visc_pos, [GAS + "viscosity_Sutton", GAS + "density_DAK"], "CAS+INT", visc_replay))
